@@ -97,6 +97,21 @@ func localClosures(fd *ast.FuncDecl) map[string]*ast.FuncLit {
 	return res
 }
 
+// unknownClosureLits: the literals of fd's named closures that are not in the vocabulary; they
+// are expanded where they are called, so walkers skip them where they are defined.
+func (p *pkg) unknownClosureLits(fd *ast.FuncDecl) map[*ast.FuncLit]bool {
+	res := map[*ast.FuncLit]bool{}
+	if fd == nil {
+		return res
+	}
+	for n, fl := range localClosures(fd) {
+		if !vocab[declKey(p, fd)+"."+n] {
+			res[fl] = true
+		}
+	}
+	return res
+}
+
 // expansion returns the body to expand in place of the call ce made inside fd, or nil when the
 // callee is in the vocabulary, not package-local, or recursion would result.
 func (p *pkg) expansion(fd *ast.FuncDecl, closures map[string]*ast.FuncLit, ce *ast.CallExpr, stack map[ast.Node]bool) ast.Node {
@@ -256,6 +271,7 @@ func (p *pkg) typeInfo() *types.Info {
 	info := &types.Info{
 		Uses:       map[*ast.Ident]types.Object{},
 		Selections: map[*ast.SelectorExpr]*types.Selection{},
+		Types:      map[ast.Expr]types.TypeAndValue{},
 	}
 	conf := types.Config{Importer: fakeImporter{}, Error: func(error) {}, DisableUnusedImportCheck: true, FakeImportC: true}
 	_, _ = conf.Check(p.dir, p.fset, files, info)
@@ -367,6 +383,17 @@ func lenGuards(p *pkg) map[string]string {
 	if fd == nil {
 		return res
 	}
+	// names that hold len(b) (`msgLen := len(b)`): the guard may be written on them
+	isLen := map[string]bool{"len(b)": true}
+	ast.Inspect(fd.Body, func(n ast.Node) bool {
+		if as, ok := n.(*ast.AssignStmt); ok && len(as.Lhs) == 1 && len(as.Rhs) == 1 && exprStr(p.fset, as.Rhs[0]) == "len(b)" {
+			if id, ok := as.Lhs[0].(*ast.Ident); ok {
+				isLen[id.Name] = true
+			}
+		}
+		return true
+	})
+	info := p.resolved()
 	ast.Inspect(fd.Body, func(n ast.Node) bool {
 		sw, ok := n.(*ast.SwitchStmt)
 		if !ok {
@@ -387,11 +414,14 @@ func lenGuards(p *pkg) map[string]string {
 				continue
 			}
 			be, ok := ifs.Cond.(*ast.BinaryExpr)
-			if !ok || be.Op != token.LSS || exprStr(p.fset, be.X) != "len(b)" {
+			if !ok || be.Op != token.LSS || !isLen[exprStr(p.fset, be.X)] {
 				continue
 			}
 			if lit, ok := be.Y.(*ast.BasicLit); ok && lit.Kind == token.INT {
 				res[id.Name] = "some " + lit.Value
+			} else if tv, ok := info.Types[be.Y]; ok && tv.Value != nil && tv.Value.Kind() == constant.Int {
+				// a named constant (or constant expression) instead of the literal
+				res[id.Name] = "some " + tv.Value.ExactString()
 			}
 		}
 		return false
@@ -412,7 +442,7 @@ func selects(p *pkg, fd *ast.FuncDecl) []selInfo {
 	if fd == nil {
 		return nil
 	}
-	return selectsNode(p, fd.Body)
+	return selectsNode(p, fd, fd.Body)
 }
 
 // onceBody returns the body of the function literal passed to <x>.Do(...) in fd
@@ -433,15 +463,24 @@ func onceBody(p *pkg, fd *ast.FuncDecl) ast.Node {
 	return body
 }
 
-func selectsNode(p *pkg, root ast.Node) []selInfo {
+func selectsNode(p *pkg, fd *ast.FuncDecl, root ast.Node) []selInfo {
 	var res []selInfo
 	if root == nil {
 		return res
 	}
+	closures := localClosures(fd)
+	stack := map[ast.Node]bool{root: true}
 	var walk func(n ast.Node, depth int)
 	walk = func(n ast.Node, depth int) {
 		ast.Inspect(n, func(m ast.Node) bool {
 			switch s := m.(type) {
+			case *ast.CallExpr:
+				// selects inside a helper that is not in the vocabulary belong to this function
+				if body := p.expansion(fd, closures, s, stack); body != nil {
+					stack[body] = true
+					walk(body, depth)
+					delete(stack, body)
+				}
 			case *ast.FuncLit:
 				// do not descend into closures defined in the function:
 				// they are separate control flow (handled by name elsewhere)
@@ -524,7 +563,11 @@ func calls(p *pkg, fd *ast.FuncDecl) []string {
 	closures := localClosures(fd)
 	stack := map[ast.Node]bool{fd.Body: true}
 	var visit func(n ast.Node) bool
+	skipLit := p.unknownClosureLits(fd)
 	visit = func(n ast.Node) bool {
+		if fl, ok := n.(*ast.FuncLit); ok && skipLit[fl] {
+			return false
+		}
 		if ce, ok := n.(*ast.CallExpr); ok {
 			if body := p.expansion(fd, closures, ce, stack); body != nil {
 				stack[body] = true
@@ -587,6 +630,11 @@ func skeleton(p *pkg, fd *ast.FuncDecl) []string {
 				stack[body] = true
 				ast.Inspect(body, visit)
 				delete(stack, body)
+				return true
+			}
+			if _, lit := x.Fun.(*ast.FuncLit); lit {
+				// `defer func() {...}()` / `go func() {...}()`: the "defer" / "go" token and the
+				// literal's body say it all
 				return true
 			}
 			res = append(res, "call:"+fn)
@@ -765,6 +813,9 @@ func guardedCalls(p *pkg, fd *ast.FuncDecl, callee, cond string) []bool {
 	if fd == nil {
 		return res
 	}
+	closures := localClosures(fd)
+	skipLit := p.unknownClosureLits(fd)
+	stack := map[ast.Node]bool{fd.Body: true}
 	var walk func(n ast.Node, guarded bool)
 	walk = func(n ast.Node, guarded bool) {
 		ast.Inspect(n, func(m ast.Node) bool {
@@ -772,6 +823,10 @@ func guardedCalls(p *pkg, fd *ast.FuncDecl, callee, cond string) []bool {
 				return true
 			}
 			switch x := m.(type) {
+			case *ast.FuncLit:
+				if skipLit[x] {
+					return false
+				}
 			case *ast.IfStmt:
 				g := guarded || exprStr(p.fset, x.Cond) == cond
 				if x.Init != nil {
@@ -785,6 +840,10 @@ func guardedCalls(p *pkg, fd *ast.FuncDecl, callee, cond string) []bool {
 			case *ast.CallExpr:
 				if exprStr(p.fset, x.Fun) == callee {
 					res = append(res, guarded)
+				} else if body := p.expansion(fd, closures, x, stack); body != nil {
+					stack[body] = true
+					walk(body, guarded)
+					delete(stack, body)
 				}
 			}
 			return true
@@ -1083,7 +1142,7 @@ func main() {
 	emitSelects(o, "sel_Recv", selects(g, g.anyFunc("GoBackNConn", "Recv")))
 	emitSelects(o, "sel_clientHandshake", selects(g, g.anyFunc("GoBackNConn", "clientHandshake")))
 	emitSelects(o, "sel_serverHandshake", selects(g, g.anyFunc("GoBackNConn", "serverHandshake")))
-	emitSelects(o, "sel_Close", selectsNode(g, onceBody(g, g.anyFunc("GoBackNConn", "Close"))))
+	emitSelects(o, "sel_Close", selectsNode(g, g.anyFunc("GoBackNConn", "Close"), onceBody(g, g.anyFunc("GoBackNConn", "Close"))))
 	emitSelects(o, "sel_waitForSync", selects(g, g.anyFunc("syncer", "waitForSync")))
 	emitSelects(o, "sel_proceedAfterTime", selects(g, g.anyFunc("syncer", "proceedAfterTime")))
 
